@@ -61,7 +61,9 @@ def run(ctx):
     if bad:
         ctx.machinery_failure("per-frame runner failed under %s: %s" % (bad[0][0], bad[0][2]))
     ref_env, ref, _ = outs[0]
-    names = sorted(set(k.split("|")[0] for k in ref))
+    names = sorted(set(k.split("|")[0] for k in ref if not k.startswith("@meta:")))
+    if int(ref["@meta:shear_frames_found"][0]) < 9:
+        ctx.machinery_failure("per-frame runner found only %d sheared cells with a bit-identical diagonal (9 needed)" % int(ref["@meta:shear_frames_found"][0]))
     stats = {}
     n_cmp = 0
     for name in names:
